@@ -68,6 +68,20 @@ def run(ctx):
                 if shape and shapes.get(shape, 0) < 6:
                     shapes[shape] = shapes.get(shape, 0) + 1
                     cases.append(("generate_visa_pvv", (pvk, pvki, pin, pan)))
+    # chosen cipher blocks: a PVK under which the TSP of a legal (PAN, index, PIN) encrypts to all zero / one repeated hex
+    # digit / 0123456789ABCDEF (found by decrypting the block under random keys until the plaintext is 16 decimal digits)
+    nchosen = 0
+    for target in gens.SPECIAL_BLOCKS:
+        hit = gens.chosen_ciphertext(rng, rng.choice((8, 16, 24)), target, lambda nb: nb if all(x < 10 for x in nb) else None, tries=ctx.n(12000, 60000))
+        if hit:
+            k, nb = hit
+            ds = "".join(str(x) for x in nb)
+            cases.append(("generate_visa_pvv", (k, ds[11], ds[12:], ds[:11] + rng.choice("0123456789"))))
+            cases.append(("generate_visa_pvv", (k, ds[11], ds[12:], rnd(rng.randrange(0, 8)) + ds[:11] + "7")))
+            nchosen += 1
+    # very long PANs (no upper bound is documented; only the 11 digits before the check digit are used)
+    for n in (25, 100, 1000, 4300, 4301, 5000):
+        cases.append(("generate_visa_pvv", (rng.randbytes(16), "1", "1234", rnd(n))))
     for pvkl in (0, 7, 9, 15, 17, 25, 32):
         cases.append(("generate_visa_pvv", (rng.randbytes(pvkl), "1", "1234", "1122334455667788")))
     for pvki in ("", "11", "A", "１", " ", "+"):
@@ -82,6 +96,7 @@ def run(ctx):
              "needing the second decimalisation pass + domain edges; oracle = independent PVV; non-trivial = distinct successful calls")
     fw.inplace_history(res, rng, [c for c in cases if check_impl(c[0], c[1], core.impl_call(c[0], c[1])) is None][:200], check_impl)
     res["distribution"]["second_pass_inputs"] = found
+    res["distribution"]["chosen_cipher_blocks"] = nchosen
     for shape, k in shapes.items():
         res["distribution"]["encrypted TSP: " + shape] = k
     res["distribution"]["corpus_inputs_0_or_1_decimal_nibbles"] = len(corpus)
